@@ -110,7 +110,7 @@ Proof.
   unfold g_rates_exact in Hrate. rewrite forallb_forall in Hrate. specialize (Hrate e He). apply Qceqb_eq in Hrate.
   unfold gwf in Hwf. apply andb_prop in Hwf. destruct Hwf as [_ Hwf]. rewrite forallb_forall in Hwf. specialize (Hwf e He).
   apply andb_prop in Hwf. destruct Hwf as [_ Hd].
-  destruct (gd e) as [[d [s|]]|] eqn:Ed; try discriminate.
+  destruct (gd e) as [[d [s|]]|] eqn:Ed.
   - (* delay and spread *)
     rewrite Habove, Hrate. unfold slot_rate, slot_order, slot_m. rewrite Ed.
     apply andb_prop in Hd. destruct Hd as [Hd _]. rewrite (of_nat_pos_ne d Hd).
@@ -118,12 +118,14 @@ Proof.
     assert (Hn : (if (gdde c <? n)%nat then n else gdde c) = Nat.max n (gdde c)).
     { destruct (Nat.ltb_spec (gdde c) n); lia. }
     rewrite Hn. reflexivity.
-  - (* no delay: pass-through, either because the source is not buffered or because its order is dde_approx = 0 *)
+  - (* plain delay: only when the repaired mechanism keeps it continuous (dde_approx > 0) *)
+    rewrite Habove, Hrate. unfold slot_rate, slot_order, slot_m. rewrite Ed, Hall.
+    apply andb_prop in Hd. destruct Hd as [Hd _]. rewrite (of_nat_pos_ne d Hd). reflexivity.
+  - (* no delay: pass-through, either because the source is not buffered or because its order is 0 *)
     destruct (gadd_delay c (gkey c (gsrc e))) eqn:Ga; [|reflexivity].
-    rewrite Hrate. unfold slot_rate, slot_order, slot_m. rewrite Ed.
-    rewrite orb_false_r in Hker. apply Nat.eqb_eq in Hker. rewrite Hker.
-    replace (Qceqb 1 0) with false by reflexivity. cbn [of_nat].
-    f_equal; try (apply Qc_is_canon; reflexivity).
+    rewrite Hrate. rewrite orb_false_r in Hker. apply Nat.eqb_eq in Hker.
+    unfold slot_rate. rewrite Hker. destruct (Qceqb (slot_m c e) 0); [reflexivity|].
+    f_equal. f_equal. unfold of_nat. cbn. unfold Qcdiv. apply Qcmult_0_l.
 Qed.
 
 Theorem gimpl_refines_spec c n : gwf c = true -> gguards c = true -> gimpl_run c n = Ok (gspec_run c n).
